@@ -18,7 +18,7 @@ Executable model of libuv's signal machinery.
 
 Kernel behaviour that is modelled: a signal is delivered synchronously (`raise`), the handler runs
 iff the disposition is libuv's, and `SA_RESETHAND` resets the disposition to default *before* the
-handler runs.  Not modelled: masking, pipe capacity (EAGAIN), fork.
+handler runs.  Pipe capacity (EAGAIN) is modelled as a message count.  Not modelled: masking, fork.
 -/
 namespace UvModel.Signal
 
@@ -186,6 +186,15 @@ def enqueue (sig : Nat) (s : S) (k : Key) : S :=
   { s with pipes := upd s.pipes H.loop (s.pipes H.loop ++ [⟨k.id, sig, H.gen⟩]),
            hs := upd s.hs k.id { H with caught := H.caught + 1 } }
 
+/-- capacity of a loop's self-pipe in messages: 64 KiB / sizeof(uv__signal_msg_t) = 16 bytes.  The pipe
+only ever grows or is drained completely (`dispatch`), so page granularity does not show. -/
+def pipeCap : Nat := 4096
+
+/-- the same with the pipe possibly full: `write` fails with EAGAIN, nothing is queued and
+`caught_signals` is not incremented (signal.c:212-216: "the user is out of luck") -/
+def enqueueCap (sig : Nat) (s : S) (k : Key) : S :=
+  if (s.pipes (s.hs k.id).loop).length ≥ pipeCap then s else enqueue sig s k
+
 /-- nodes visited by the handler: from `uv__signal_first_handle(signum)` along RB_NEXT while the
 signum matches -/
 def handlerTargets (t : List Key) (sig : Nat) : List Key :=
@@ -198,7 +207,7 @@ def deliver (s : S) (sig : Nat) : S :=
   | .uv reset =>
     let s := if reset then { s with disp := upd s.disp sig .dflt } else s   -- SA_RESETHAND
     let s := { s with delivered := upd s.delivered sig true }
-    (handlerTargets s.tree sig).foldl (enqueue sig) s
+    (handlerTargets s.tree sig).foldl (enqueueCap sig) s
 
 /-- user callbacks: the k-th signal callback performs `sc k` -/
 abbrev Script := Nat → List Op
